@@ -125,8 +125,8 @@ func checkCheckWiring(w *World, r *Result) {
 				sub[k] = v
 			}
 			ast.Inspect(scope, func(y ast.Node) bool {
-				c2, ok := y.(*ast.CallExpr)
-				if !ok || !isSprintf(info, &c2) {
+				c2 := sprintfView(info, y)
+				if c2 == nil {
 					return true
 				}
 				format, vas := verbArgs(info, c2)
@@ -330,8 +330,8 @@ func checkStructValidator(w *World, r *Result) {
 	// each check calls the validator of the field's own type on the field's own key
 	okCheck := false
 	ast.Inspect(fl.rs.Body, func(x ast.Node) bool {
-		call, ok := x.(*ast.CallExpr)
-		if !ok || !isSprintf(info, &call) {
+		call := sprintfView(info, x)
+		if call == nil {
 			return true
 		}
 		format, vas := verbArgs(info, call)
@@ -400,8 +400,8 @@ func checkUnionEnumValidators(w *World, r *Result) {
 	// member case calls the member's validator on Data
 	okCase := false
 	ast.Inspect(fi.Decl.Body, func(x ast.Node) bool {
-		call, ok := x.(*ast.CallExpr)
-		if !ok || !isSprintf(info, &call) {
+		call := sprintfView(info, x)
+		if call == nil {
 			return true
 		}
 		format, vas := verbArgs(info, call)
@@ -418,8 +418,8 @@ func checkUnionEnumValidators(w *World, r *Result) {
 		if len(call.Args) != 2 {
 			continue
 		}
-		sp, ok := ast.Unparen(call.Args[1]).(*ast.CallExpr)
-		if !ok || !isSprintf(info, &sp) {
+		sp := sprintfView(info, ast.Unparen(call.Args[1]))
+		if sp == nil {
 			continue
 		}
 		if f, _ := verbArgs(info, sp); !strings.Contains(f, "WHEN data->>'Kind'") {
